@@ -16,6 +16,11 @@ HOSTILE = [
     ('y = 0.5*y + 1\nd = 1e308*y*10\nMaxTime = 3', 'derived-only variable overflows to inf'),
     ('x = -2*x*x - 3\nMaxTime = 2', 'diverges to -inf'),
     ('x = x + y\ny = 0.5*y + 1\nMaxTime = 3', 'x has no fixed point (drift)'),
+    ('c = 1/s\ns = 0.0*y\ny = 0.5*y + 1\nMaxTime = 2', 'persistent division by zero; failing equation first'),
+    ('y = 0.5*y + 1\nc = log10(s)\ns = y - y\nz = c + y\nMaxTime = 2', 'persistent log10(0); failing equation in the middle'),
+    ('cover = service/surplus\nservice = 0.5*service + 1\nsurplus = service - service\nw = 0.25*w + cover\nMaxTime = 3',
+     'persistent division by an exact zero; later equations evaluate cleanly'),
+    ('a = 0.5*a + 1\nb = sqrt(-a)\nc = 0.5*c + a\nMaxTime = 2', 'persistent math domain error in the middle'),
 ]
 
 
